@@ -259,7 +259,11 @@ func execOmni(s omniSched, dir string, seed int64) ([]any, error) {
 		return nil
 	}
 	last := map[string]*world.CP{}
-	consistent := func(name string) bool { // does the published checkpoint extend what was last served?
+	isDown := map[string]bool{}
+	consistent := func(name string) bool { // does the published checkpoint extend what was last served (and is the log reachable)?
+		if isDown[name] {
+			return false
+		}
 		prev, want := last[name], expect(name)
 		if prev == nil || prev.None {
 			return true
@@ -293,6 +297,15 @@ func execOmni(s omniSched, dir string, seed int64) ([]any, error) {
 		case "grow", "fork":
 			logs[e.L].Publish(e.B, w.Sigma[e.N])
 			events = append(events, omniEvent{E: "omni.ev", Run: tag, K: k, A: e.A, L: e.L, B: e.B, N: e.N})
+		case "outage", "recover":
+			down := e.A == "outage"
+			isDown[e.L] = down
+			if down {
+				logs[e.L].SetHostile(func(rw http.ResponseWriter, r *http.Request) bool { http.Error(rw, "outage", 503); return true })
+			} else {
+				logs[e.L].SetHostile(nil)
+			}
+			events = append(events, omniEvent{E: "omni.ev", Run: tag, K: k, A: e.A, L: e.L})
 		case "restart":
 			msg := svc.stop()
 			if db != nil {
